@@ -213,6 +213,87 @@ func r15f2345X(c *core.Ctx) {
 		c.Check(e != 0 && ok && nilOK, R, "milenage.milenageF2345:"+t.key, fn.Pos(), t.want,
 			"%s must be E_K(rot(TEMP xor OPc, %d octets) xor %d) xor OPc, written only when a buffer is given (%s %s; nil buffers tolerated %v)", t.key, t.rot, t.cst, d, why, nilOK)
 	}
+	// every output on its own: the callers ask for subsets (Milenage_auts wants AK* alone, f5 alone is legal)
+	for _, t := range []struct {
+		name, param      string
+		idx, from, n, rot int
+		cst              uint64
+	}{{"RES", "p3", 3, 8, 8, 0, 1}, {"CK", "p4", 4, 0, 16, 4, 2}, {"IK", "p5", 5, 0, 16, 8, 4}, {"AK", "p6", 6, 0, 6, 0, 1}, {"AK*", "p7", 7, 0, 6, 12, 8}} {
+		okA, whyA := f2345Alone(fn, t.idx, t.param, t.from, t.n, t.rot, t.cst)
+		c.Check(okA, R, "milenage.milenageF2345:"+t.name+":alone", fn.Pos(), t.name+" requested alone (other buffers nil) is the same function of (OPc, K, RAND)", "with only %s requested the output is wrong: %s", t.name, whyA)
+	}
+}
+
+// f2345Alone: milenageF2345 with only the output buffer at parameter index keep given (the others
+// nil): that output must still be the one its definition gives - E_K(rot(TEMP xor OPc, rot octets)
+// xor cst) xor OPc, octets from.. - however the function shares work between the outputs.
+func f2345Alone(fn *ssa.Function, keep int, param string, from, n, rot int, cst uint64) (bool, string) {
+	var m aesModel
+	ex := core.NewExec()
+	m.install(ex)
+	a := core.DefaultArgs(fn)
+	for i := range a {
+		if i >= 3 && i != keep {
+			a[i] = core.NilArg()
+		} else {
+			a[i] = core.NonNilArg(a[i])
+		}
+	}
+	outs, err := ex.Run(fn, a, nil)
+	var good *core.AOutcome
+	for i := range outs {
+		if outs[i].Panicked {
+			return false, "a path panics"
+		}
+		if len(outs[i].Ret) == 1 && outs[i].Ret[0].K == core.ANil {
+			if good != nil {
+				return true, "" // not one successful path: not judged here
+			}
+			good = &outs[i]
+		}
+	}
+	if err != nil || good == nil || len(ex.Unsound) > 0 {
+		return true, ""
+	}
+	temp := 0
+	for _, e := range m.evs {
+		ok := true
+		for j := 0; j < 16; j++ {
+			if !core.SameVec(e.in[j], core.XorVec(srcByte("p2", j), srcByte("p0", j))) {
+				ok = false
+			}
+		}
+		if ok && temp == 0 {
+			temp = e.n
+		}
+	}
+	if temp == 0 {
+		return false, "TEMP is not computed"
+	}
+	tempName := fmt.Sprintf("E%d", temp)
+	enc := 0
+	for i := 0; i < n; i++ {
+		v := cell8(good.Mem, param, i)
+		k := encOf(v, from+i, "p0")
+		if k == 0 || (enc != 0 && k != enc) {
+			return false, fmt.Sprintf("%s[%d] is %s", param, i, v.Describe())
+		}
+		enc = k
+	}
+	if enc <= 0 || enc > len(m.evs) {
+		return false, "no encryption feeds the output"
+	}
+	e := m.evs[enc-1]
+	for j := 0; j < 16; j++ {
+		want := core.XorVec(srcByte(tempName, (j+rot)%16), srcByte("p0", (j+rot)%16))
+		if j == 15 {
+			want = core.XorVec(want, core.ConstBits(cst, 8))
+		}
+		if !core.SameVec(e.in[j], want) {
+			return false, fmt.Sprintf("octet %d of the cipher input is %s", j, e.in[j].Describe())
+		}
+	}
+	return true, ""
 }
 
 func r15f1X(c *core.Ctx) {
